@@ -1,5 +1,6 @@
 import DFV.JsonField
 import DFV.Model.C19
+import DFV.Drv.C11
 namespace DFV.Drv
 open Lean DFV DFV.C19
 
@@ -106,6 +107,22 @@ def c19 (op : String) (j : Json) : Option (R Json) :=
       let cells ← listOf (listOf ratOfJson) (← fld tj "data")
       if cells.length ≠ natProd shape then throw "tensor data length"
       pure (resJ fldToJson (demagField (NDA.ofList shape cells []) f))
+  | "demag_field_fft" => some do
+      -- the code-shaped path: pad, C11's fftn, products, C11's ifftn, crop — over formal roots of unity
+      let f ← fldOfJson (← fld j "field")
+      let tj ← fld j "tensor"
+      let shape ← nats tj "shape"
+      let cells ← listOf (listOf ratOfJson) (← fld tj "data")
+      if cells.length ≠ natProd shape then throw "tensor data length"
+      let T := NDA.ofList shape cells []
+      let ι : Rat → C11.Poly := fun q => C11.Poly.const q 0
+      let ρs := C11.Poly.roots shape
+      let That := (tensorSpectrum ι ρs T).force []
+      match demagFieldFFT ι ρs That f with
+      | .error e => pure (errJ e)
+      | .ok (mesh, arr) =>
+        pure (Json.mkObj [("ok", Json.mkObj [("mesh", meshToJson mesh), ("ns", natsJ shape),
+          ("coef", listJ (fun i => listJ (denseJ shape) (arr.get i)) (indicesC mesh.n))])])
   | "sqrt" => some do
       let q ← ratOfJson (← fld j "q")
       pure (Json.mkObj [("ok", ratToJson (ratSqrt q))])
